@@ -199,6 +199,17 @@ def b_reflection(cid, k, args, p, yvs, eps, meta, params):
     return [meta_prod2(cid + "_refl", c, [y1, y2], eps, p, gtext=("forall G : R -> R", "G %s" % xs, "G (1 - %s)" % xs), meta=meta)]
 
 
+def b_reflection_pole(cid, k, args, p, yvs, eps, meta, params):
+    """reflection next to a pole: sin(pi x) must be resolved far below the working precision, so the certificate is computed with as
+    many bits as the offset from the pole needs (the tolerance stays that of the working precision)"""
+    x, = args; y1, y2 = _reals(yvs)
+    X = Const(x)
+    c = PI / sin(PI * X)
+    xs = X.coq()
+    pe = max(p, Fraction(x).denominator.bit_length()) + 40
+    return [meta_prod2(cid + "_refl", c, [y1, y2], eps, pe, gtext=("forall G : R -> R", "G %s" % xs, "G (1 - %s)" % xs), meta=meta)]
+
+
 def b_duplication(cid, k, args, p, yvs, eps, meta, params):
     x, = args; y1, y2, y3 = _reals(yvs)
     X = Const(x)
@@ -217,6 +228,41 @@ def b_digamma_diff(cid, k, args, p, yvs, eps, meta, params):
     x, kk = args; y1, y2 = _reals(yvs)
     c = sum(Fraction(1) / (x + j) for j in range(kk))
     return [meta_lin(cid + "_diff", [1, -1], [y2, y1], eps, p, c_term=Const(c), meta=meta)]
+
+
+def b_mod_inverse(cid, k, args, p, yvs, eps, meta, params):
+    """|gamma(z)|^2 * |rgamma(z)|^2 = 1 for a complex z (squared moduli formed exactly from the returned parts; each is within about
+    2*eps of the true squared modulus, so the product lemma is used with 3*eps)"""
+    sq = []
+    for yv in yvs:
+        re_, im_ = (yv[1], yv[2]) if yv[0] == "complex" else (yv[1], Fraction(0))
+        sq.append(Fraction(re_) ** 2 + Fraction(im_) ** 2)
+    return [meta_prod2(cid + "_inv", Const(1), sq, 3 * Fraction(eps), p, meta=meta)]
+
+
+def g_near_negaxis(rng, p):
+    """complex -n + x + i*b hugging the negative real axis: |b| far below the working precision"""
+    re_ = -Fraction(rng.randint(1, 30)) + Fraction(rng.randint(1, 63), 64)
+    b = Fraction(rng.choice([1, -1]) * (2 * rng.getrandbits(8) + 1), 2 ** (p + rng.choice([20, 60, 200])))
+    return (re_, b)
+
+
+def b_digamma_reflection(cid, k, args, p, yvs, eps, meta, params):
+    x, = args; y1, y2 = _reals(yvs)             # psi(1-x) - psi(x) = pi cos(pi x) / sin(pi x)
+    X = Const(x)
+    return [meta_lin(cid + "_refl", [1, -1], [y2, y1], eps, p, c_term=PI * cert.cos(PI * X) / sin(PI * X), meta=meta)]
+
+
+def g_near_negint(rng, p):
+    """-n + d with an offset d whose mantissa does not fit the working precision next to the pole (a number built at a higher
+    precision than the one the function is evaluated at)"""
+    n = rng.randint(0, 40)
+    if rng.random() < 0.6:
+        # offset far below the working precision: -n +- 2^-(p+j)
+        return -Fraction(n) + rng.choice([1, -1]) * Fraction(2 * rng.getrandbits(6) + 1, 2 ** (p + rng.choice([20, 40, 90, 200])))
+    k = rng.randint(3, 30)
+    d = Fraction(rng.getrandbits(p + rng.randint(8, 40)) | 1, 2 ** (p + 60 + k))
+    return -Fraction(n) + rng.choice([1, -1]) * (Fraction(1, 2 ** k) + d)
 
 
 def b_digamma_half(cid, k, args, p, yvs, eps, meta, params):
@@ -412,6 +458,12 @@ reg("m_factorial_rec", "factorial(x) & factorial(x+1)", lambda c, x: (c.factoria
     gen=lambda rng, p: [g_x(rng, p, -20, 60)], build=b_fact_rec, w=0.8, regime=MM)
 reg("m_gamma_reflection", "gamma(x) & gamma(1-x)", lambda c, x: (c.gamma(M(c, x)), c.gamma(M(c, 1 - x))), gen=lambda rng, p: [g_x(rng, p, -12, 12)],
     build=b_reflection, w=1.5, regime=MM)
+reg("m_gamma_reflection_pole", "gamma(x) & gamma(1-x)", lambda c, x: (c.gamma(M(c, x)), c.gamma(M(c, 1 - x))), gen=lambda rng, p: [g_near_negint(rng, p)],
+    build=b_reflection_pole, w=1.5, regime=MM)
+reg("m_digamma_reflection", "digamma(x) & digamma(1-x)", lambda c, x: (c.digamma(M(c, x)), c.digamma(M(c, 1 - x))),
+    gen=lambda rng, p: [rng.choice([g_x(rng, p, -40, -8), g_x(rng, p, -12, 12)])], build=b_digamma_reflection, w=1.5, regime=MM)
+reg("m_gamma_rgamma_cplx", "gamma(z) & rgamma(z)", lambda c, z: (c.gamma(M(c, z)), c.rgamma(M(c, z))),
+    gen=lambda rng, p: [g_near_negaxis(rng, p)], build=b_mod_inverse, w=1.2, regime=MM)
 reg("m_gamma_duplication", "gamma(x) & gamma(x+1/2) & gamma(2x)",
     lambda c, x: (c.gamma(M(c, x)), c.gamma(M(c, x + Fraction(1, 2))), c.gamma(M(c, 2 * x))),
     gen=lambda rng, p: [abs(g_x(rng, p, -20, 20))], build=b_duplication, w=1.5, regime=MM)
